@@ -77,6 +77,7 @@ class Project:
     def __init__(self):
         self.files = []
         self.planted = []
+        self.offset = {}      # (path, fn index) -> (lines in front of the definition inside its entry, placement) for definitions placed under a clause
 
     def sources(self):
         out = []
@@ -94,7 +95,8 @@ class Project:
                 start = 1
                 for i, fn in enumerate(fns):
                     if i == k:
-                        return start, start + len(fn) - 1
+                        off = self.offset.get((path, k), (0, None))[0]
+                        return start + off, start + len(fn) - 1
                     start += len(fn) + 2
         raise KeyError((path, k))
 
@@ -162,12 +164,192 @@ def gen_project(rng, nbase=None, heavy_noise=False, nodes=None):
                 pad.append("    " + rng.choice(["log_%d.info(\"step %d\", tag_%d)" % (i, i, i), "metrics_%d.incr(\"k%d\")" % (i, i), "note_%d: int = %d" % (i, i),
                                               "trace(%d)" % i]))
             files[rng.choice([target, rng.choice(sorted(files))])].append([base_lines[0]] + pad + base_lines[1:])
+    if where and rng.random() < 0.35:
+        # COPY PLACEMENT under a clause: a verbatim copy of a function as the fallback definition under `except ImportError:` or in a `finally:`
+        # block (indented one level) — it must be a fragment like the copy at module level
+        b = rng.choice(sorted(where))
+        sk, seed = bases[b]
+        base_lines = render_fn(sk, seed)
+        for placement in rng.sample(["except", "finally"], rng.choice([1, 2])):
+            head = ["try:", "    import opt_accel_%d" % rng.randrange(100)] + (["except ImportError:"] if placement == "except" else ["finally:"])
+            path = rng.choice(sorted(files))
+            files[path].append(head + ["    " + ln if ln.strip() else ln for ln in base_lines])
+            pr.offset[(path, len(files[path]) - 1)] = (len(head), placement)
+            where[b].append((path, len(files[path]) - 1))
     pr.files = [(p, fns) for p, fns in files.items() if fns]
     for b, locs in where.items():
         for x in range(len(locs)):
             for y in range(x + 1, len(locs)):
                 pr.planted.append((locs[x], locs[y]))
     return pr
+
+
+def async_twin(lines, rng, keep=0.25):
+    """the `async def` variant of a rendered function: the header becomes `async def`, every statement-level `for` / `with` becomes `async for` / `async with`
+    (each one stays synchronous with probability `keep`, which is still valid inside a coroutine). Returns None when nothing but the header would change."""
+    out, changed = [], 0
+    for k, ln in enumerate(lines):
+        body = ln.lstrip()
+        ind = ln[:len(ln) - len(body)]
+        if k == 0 and body.startswith("def "):
+            out.append(ind + "async " + body)
+        elif (body.startswith("for ") or body.startswith("with ")) and body.rstrip().endswith(":") and rng.random() >= keep:
+            out.append(ind + "async " + body)
+            changed += 1
+        else:
+            out.append(ln)
+    return out if changed else None
+
+
+def add_async_twins(pr, rng, n=1):
+    """sync/async pairs: for up to n functions of the project that hold a `for` or `with` statement, the coroutine variant of the same text is added (same
+    file or another file, before or after the original). The two fragments differ by FunctionDef/AsyncFunctionDef, For/AsyncFor, With/AsyncWith labels only,
+    so the pair is compared in both directions with a rename between related node types on the optimal mapping. Returns the number of twins added."""
+    cands = []
+    for fi, (path, fns) in enumerate(pr.files):
+        for k, fn in enumerate(fns):
+            if fn and fn[0].startswith("def ") and any(x.lstrip().startswith(("for ", "with ")) for x in fn[1:]):
+                cands.append((fi, k))
+    rng.shuffle(cands)
+    added = 0
+    for fi, k in cands[:n]:
+        tw = async_twin(pr.files[fi][1][k], rng, keep=rng.choice([0.0, 0.0, 0.3]))
+        if tw is None:
+            continue
+        # appended at the END of a file (the indices of the planted copies stay valid); the file is the original's or any other one, so the coroutine is
+        # visited before the original about as often as after it
+        tgt = rng.randrange(len(pr.files))
+        pr.files[tgt][1].append(tw)
+        added += 1
+    return added
+
+
+def flat_piece(rng, k):
+    """a few statements for the body of a LARGE function: simple statements and compound statements of at most 4 lines, so that no nested block is a
+    fragment of its own under the default minimum size (5 lines, 10 nodes) — the large function is the fragment"""
+    v = lambda: rng.choice(["x", "y", "total", "acc", "item", "res"])
+    kind = rng.choice(["s", "s", "s", "call", "aug", "if", "if", "for", "while", "with", "ret"])
+    if kind == "s":
+        return ["    %s = %d" % (v(), rng.randrange(100))]
+    if kind == "call":
+        return ["    emit(%s, %d)" % (v(), k)]
+    if kind == "aug":
+        return ["    %s += %d" % (v(), rng.randrange(100))]
+    if kind == "if":
+        out = ["    if %s %s %d:" % (v(), rng.choice(["<", ">", "==", "!="]), rng.randrange(100)), "        %s = %d" % (v(), rng.randrange(100))]
+        if rng.random() < 0.4:
+            out += ["    else:", "        %s -= %d" % (v(), rng.randrange(100))]
+        return out
+    if kind == "for":
+        return ["    for %s in range(%d):" % (v(), rng.randrange(100)), "        %s += %d" % (v(), rng.randrange(100))] + (["        emit(%d)" % k] if rng.random() < 0.5 else [])
+    if kind == "while":
+        return ["    while %s < %d:" % (v(), rng.randrange(100)), "        %s += 1" % v()]
+    if kind == "with":
+        return ["    with open(%s) as fh:" % v(), "        fh.write(%d)" % k]
+    return ["    if %s:" % v(), "        return %s" % v()]
+
+
+def gen_large_project(rng, target, as_class=False):
+    """a project in which ONE large function (or class) of about `target` statement lines appears verbatim in two or three places (same file / other file /
+    other directory; as is, with comment and blank-line noise, re-indented), next to one or two ordinary functions that are copied verbatim as well.
+    Only verbatim renderings of the large fragment are generated: what the property demands of such a pair does not depend on how expensive it is to compare."""
+    pr = Project()
+    if as_class:
+        # a class whose members are many short methods and class-level assignments (each member far below the minimum fragment size)
+        body, k = [], 0
+        while len(body) < target:
+            k += 1
+            if rng.random() < 0.6:
+                body += ["    def m_%d(self, x):" % k, "        %s = x + %d" % (rng.choice(["y", "acc"]), rng.randrange(100)), "        return %s" % rng.choice(["x", "self"])]
+            else:
+                body += ["    FIELD_%d = %d" % (k, rng.randrange(1000))]
+        big = ["class Table_%d:" % rng.randrange(100)] + body
+    else:
+        body, k = [], 0
+        while len(body) < target:
+            k += 1
+            body += flat_piece(rng, k)
+        big = ["def big_%d(x):" % rng.randrange(100)] + body + ["    return x"]
+    paths = rng.sample(["a.py", "b.py", "pkg/c.py", "pkg/sub/d.py", "other/e.py"], rng.randint(1, 3))
+    files = {p: [] for p in paths}
+    small = []
+    for b in range(rng.randint(1, 2)):
+        small.append(render_fn(gen_skeleton(rng, "ctl_%d" % b, nodes=rng.choice([14, 22])), rng.randrange(10 ** 6)))
+    locs = {}
+    items = [("big", big, 0)] + [("s%d" % i, fn, 0) for i, fn in enumerate(small)]
+    ncopies = rng.choice([1, 1, 2])
+    for c in range(ncopies):
+        kind = rng.choice(["verbatim", "noise", "reindent"])
+        lines = list(big) if kind == "verbatim" else noise(big, rng) if kind == "noise" else reindent(big, rng.choice(["  ", "\t", "        "]))
+        items.append(("big", lines, 1))
+    for i, fn in enumerate(small):
+        if rng.random() < 0.7:
+            items.append(("s%d" % i, list(fn), 1))
+    rng.shuffle(items)
+    for key, lines, _ in items:
+        path = rng.choice(paths)
+        files[path].append(lines)
+        locs.setdefault(key, []).append((path, len(files[path]) - 1))
+    pr.files = [(p, fns) for p, fns in files.items() if fns]
+    for key, ls in locs.items():
+        for x in range(len(ls)):
+            for y in range(x + 1, len(ls)):
+                pr.planted.append((ls[x], ls[y]))
+    return pr
+
+
+def harness_pool(cmd, cases, jobs=14, weights=None):
+    """like common.harness_batch, but the cases are handed out ONE AT A TIME to `jobs` harness processes (heaviest first when `weights` is given), so that
+    a few expensive cases do not leave most processes idle while one of them works through its share. Results come back in input order."""
+    import json
+    import os
+    import subprocess
+    import threading
+    if not cases:
+        return []
+    lines = [cmd + " " + json.dumps(c, separators=(",", ":")) for c in cases]
+    order = sorted(range(len(lines)), key=lambda k: -(weights[k] if weights else 0))
+    out = [None] * len(lines)
+    lock = threading.Lock()
+    pos = [0]
+    errors = []
+
+    def worker():
+        p = subprocess.Popen([os.path.join(C.BUILD, "verifharness")], stdin=subprocess.PIPE, stdout=subprocess.PIPE, stderr=subprocess.DEVNULL, text=True,
+                             env=C.harness_env())
+        try:
+            while True:
+                with lock:
+                    if pos[0] >= len(order) or errors:
+                        break
+                    k = order[pos[0]]
+                    pos[0] += 1
+                p.stdin.write(lines[k] + "\n")
+                p.stdin.flush()
+                resp = p.stdout.readline()
+                if not resp:
+                    raise RuntimeError("verifharness %s: no response for request %d (process ended, rc=%s)" % (cmd, k, p.poll()))
+                out[k] = json.loads(resp)
+        except Exception as e:      # noqa: BLE001 — reported by the caller's thread
+            errors.append(e)
+        finally:
+            try:
+                p.stdin.close()
+            except Exception:
+                pass
+            try:
+                p.wait(timeout=30)
+            except Exception:
+                p.kill()
+
+    ts = [threading.Thread(target=worker) for _ in range(min(jobs, len(lines)))]
+    for t in ts:
+        t.start()
+    for t in ts:
+        t.join()
+    if errors:
+        raise errors[0]
+    return out
 
 
 # ---------------------------------------------------------------------------------------------------------------------------
